@@ -367,6 +367,39 @@ def tok_strings(line, txt):
             out.append(f)
     return ' '.join(out)
 
+def strip_storage(line, txt):
+    """a line with every string replaced by its bytes: `bi<off>:<len>` / `i<off>:<len>` by the slice
+    of the input, `b<x..>` / `o<x..>` / `x..` by the hex itself; source ranges dropped. What C04/C05/C06
+    compare internally is the content, not where it is stored (that is C18) nor its range (C13)."""
+    out = []
+    for f in line.split(' '):
+        m = re.match(r'^b?i(\d+):(\d+)$', f)
+        if m:
+            o, n = int(m.group(1)), int(m.group(2))
+            out.append('s' + bytes(txt[o:o + n]).hex())
+        elif re.match(r'^[bo]x?[0-9a-f]*$', f) and len(f) > 0 and f[0] in 'bo':
+            out.append('s' + f.lstrip('bo').lstrip('x'))
+        elif re.match(r'^x[0-9a-f]*$', f):
+            out.append('s' + f[1:])
+        elif re.match(r'^\d+:\d+$', f):
+            continue
+        else:
+            out.append(f)
+    return ' '.join(out)
+
+def res_variant(line, txt):
+    f = line.split(' ')
+    return ' '.join(f[:2]) if len(f) > 1 and f[1] == 'ok' else ' '.join(f[:3])
+
+def api_status(tags):
+    """C10 is about totality: compare, per line, whether the operation returned or panicked — not what
+    it returned (that is C11/C12/C14)."""
+    def f(di, dm, il, ml):
+        def st(lines):
+            return [(l.split(' ')[0], 'panic' in l) for l in lines]
+        return ({t: st(tag_lines(il, [t])) for t in tags}, {t: st(tag_lines(ml, [t])) for t in tags})
+    return f
+
 def res_kind_only(line, txt):
     f = line.split(' ')
     return ' '.join(f[:2])
@@ -377,22 +410,22 @@ PROPS['C03'] = P_('markup mirrors the logical structure', 'tok,arena', plan(G_CO
                   observable=obs_reject_wellformed(lambda d: d.markup()), internal=[('TK', tok_strings), ('TKRES', res_kind_only)], special='markup')
 PROPS['C04'] = P_('character data decoding', 'arena,ev',
                   plan(G_COMMON_QUICK[:2] + [['pieces-text', 2]], G_COMMON_THOROUGH[:3] + [['pieces-text', 4]]),
-                  observable=mk_obs(lambda d: d.texts()), internal=['EV F'], special='pieces_text')
+                  observable=mk_obs(lambda d: d.texts()), internal=[('EV F', strip_storage)], special='pieces_text')
 PROPS['C05'] = P_('attributes', 'arena,ev',
                   plan(G_COMMON_QUICK[:2] + [['pieces-attr', 2]], G_COMMON_THOROUGH[:3] + [['pieces-attr', 4]]),
-                  observable=mk_obs(lambda d: d.attributes()), internal=['EV V'], special='pieces_attr')
+                  observable=mk_obs(lambda d: d.attributes()), internal=[('EV V', strip_storage)], special='pieces_attr')
 PROPS['C06'] = P_('namespaces', 'arena', plan(G_COMMON_QUICK, G_COMMON_THOROUGH),
-                  observable=mk_obs(lambda d: d.namespaces()), internal=['V', 'O'], special='ns_scale')
+                  observable=mk_obs(lambda d: d.namespaces()), internal=[('V', strip_storage), 'O'], special='ns_scale')
 PROPS['C07'] = P_('entity reference = replacement text', 'arena', plan([['model', 1500, 10]], [['model', 20000, 10]]),
                   observable=obs_entities(lambda d: d.content()), special='hoist')
 PROPS['C08'] = P_('ill-formed documents are rejected', 'tok,arena', plan(G_COMMON_QUICK, G_COMMON_THOROUGH),
                   observable=lambda di, dm, il, ml: (res_kind(res_line(il)) == 'ok', res_kind(res_line(ml)) == 'ok'),
-                  internal=['RES', 'TKRES'], tie_on_rejects=True, special='illform')
+                  internal=[('RES', res_variant), ('TKRES', res_variant)], tie_on_rejects=True, special='illform')
 PROPS['C09'] = P_('entity expansion is bounded', 'arena,ev', plan([['model', 1500, 30]], [['model', 20000, 30]]),
                   observable=obs_flag('EntityReferenceLoop'), internal=['EV L'], impl_checks=[chk_size_bound, chk_no_panic], special='entities',
                   crash_is_violation=True)
 PROPS['C10'] = P_('read operations are total', 'arena,api,lk,it,tp', plan(G_COMMON_QUICK[:3], G_COMMON_THOROUGH[:4]),
-                  observable=obs_api(['DQ', 'Q', 'AQ', 'NQ', 'LK', 'IT', 'TP', 'AE']), impl_checks=[chk_api_no_panic],
+                  observable=api_status(['DQ', 'Q', 'AQ', 'NQ', 'LK', 'IT', 'TP', 'AE']), impl_checks=[chk_api_no_panic],
                   special='scale_api', crash_is_violation=True)
 PROPS['C11'] = P_('navigation agrees with the tree', 'arena,api,it', plan(G_COMMON_QUICK[:3], G_COMMON_THOROUGH[:4]),
                   observable=obs_api(['DQ', 'Q', 'IT', 'AQ', 'NQ']), oracles=['C11.'])
@@ -413,7 +446,7 @@ PROPS['C18'] = P_('borrowed strings', 'arena', plan(G_COMMON_QUICK[:3], G_COMMON
 PROPS['C19'] = P_('determinism and features', 'arena', plan([['model', 800, 20], ['fixtures', 4000]], [['model', 10000, 20], ['fixtures', 20000], ['mut', 5000, 400]]),
                   observable=None, internal=[], special='features')
 PROPS['C20'] = P_('immutable, thread-shareable, no unsafe', 'arena,api', plan([['model', 200, 0]], [['model', 2000, 0]]),
-                  observable=obs_api(['DQ', 'Q']), special='threads')
+                  observable=None, special='threads')
 
 # ------------------------------------------------------------------------------------------------
 
